@@ -537,8 +537,8 @@ class Executor:
         if k == 'tuple': return Tup([s.operand(st, fr, o) for o in rv[1]])
         if k == 'array':
             items = [s.operand(st, fr, o) for o in rv[1]]
-            if items and all(isinstance(i, Int) and i.ty == 'u8' for i in items) and dest_ty and re.match(r'^\[u8; \d+\]$', dest_ty):
-                return SymStr.from_bytes_list([i.v for i in items])
+            if items and all(isinstance(i, Int) and i.ty == 'u8' for i in items):
+                return SymStr.from_bytes_list([i.v for i in items])      # byte arrays are byte strings everywhere
             return Vec(items)
         if k == 'repeat':
             v = s.operand(st, fr, rv[1]); n = rv[2]
